@@ -69,6 +69,11 @@ theorem C09_site_copy (f : Nat) :
     disciplined f siteActiveRefCopy1 = true ∧ disciplined f siteActiveRefCopy2 = true :=
   ⟨scalarAssign_ok 1 f, scalarAssign_ok 1 f, scalarAssign_ok 1 f, scalarAssign_ok 1 f⟩
 
+/-- the temporary returned by `Array::get_rvalue` / `FixedArray::get_rvalue` for an element of an active array
+    (`Active(const PType&, Index)`): reserves 1, pushes 1.  (F-70: the pinned constructor pushed without reserving, so two
+    such temporaries in one expression overflowed a full buffer.) -/
+theorem C09_site_element_temporary (f : Nat) : disciplined f siteActiveElemCtor = true := scalarAssign_ok 1 f
+
 /-- user-supplied dependences: `n` reserved, at most `n` (the non-zero multipliers) pushed -/
 theorem C09_site_dependence (n k f : Nat) (h : k ≤ n) :
     disciplined f (siteActiveAddDep n k) = true ∧ disciplined f (siteActiveRefAddDep n k) = true ∧
@@ -88,6 +93,26 @@ theorem C09_site_array_assign (nA size f : Nat) :
     disciplined f (siteArrayAssignArray nA size) = true ∧ disciplined f (siteArrayAssignFixed nA size) = true ∧
     disciplined f (siteArrayAssignSpecial nA size) = true :=
   ⟨arrayAssign_ok nA size f, arrayAssign_ok nA size f, arrayAssign_ok nA size f⟩
+
+/-- `diag_vector(active matrix expression, offdiag)`, both signs of `offdiag`, every diagonal length and number of active
+    leaves.  (F-69: the pinned function had no reservation at all.) -/
+theorem C09_site_diag_vector (nA n f : Nat) :
+    disciplined f (siteDiagVectorUpper nA n) = true ∧ disciplined f (siteDiagVectorLower nA n) = true :=
+  ⟨arrayAssign_ok nA n f, arrayAssign_ok nA n f⟩
+
+/-- matrix products with active operands: matrix×vector (`elems = rows`), matrix×matrix (`elems = rows·cols`), for every
+    inner extent and every combination of active operands; and band matrix × active vector for every size and band. -/
+theorem C09_site_matmul (elems n dim ld ud f : Nat) (l r : Bool) :
+    disciplined f (siteMatmul elems n l r) = true ∧ disciplined f (siteMatmulBandVec dim ld ud) = true :=
+  ⟨matmul_ok elems n f l r, matmulBandVec_ok dim ld ud f⟩
+
+/-- CENSUS.  Every call in include/adept/*.h that makes the stack push operations (`next_value_and_gradient*`,
+    `scalar_value_and_gradient`, `push_rhs`, `push_rhs_indices`, `push_derivative_dependence`; the table is REGENERATED from
+    the source by translate/reserve.py on every run) is preceded by a reservation in its own function, reserves for itself,
+    or sits in a leaf member (`calc_gradient_`, engine `push_rhs`, `accumulate_active`, the forwarding members of
+    Expression.h) that is only reached from inside a reserved statement.  No call is unreserved. -/
+theorem C09_every_recording_call_reserved :
+    recordingCalls.all (fun c => decide (c.2.2.2 ≠ RecKind.unreserved)) = true := by decide
 
 /-- active array ← active scalar -/
 theorem C09_site_array_from_scalar (size f : Nat) :
